@@ -13,7 +13,10 @@ Local Open Scope N_scope.
 (** Caller ids, image ids and pull numbers are [N].  A result is [true] = package, [false] = error. *)
 Inductive step :=
 | Req (c img : N)              (* caller c runs the critical section of handleRequest(img) *)
-| Done (img : N) (res : bool). (* the pull goroutine of img runs the critical section of handleResponse *)
+| Done (img : N) (res : bool)  (* the pull goroutine of img runs the critical section of handleResponse *)
+| Cancel (c : N).              (* the context caller c passed to Pull is cancelled while c waits.  Pull
+                                  (request_manager.go:67) receives from the channel unconditionally and
+                                  never looks at ctx.Done(): no effect on the manager, c keeps waiting. *)
 
 (** Identity of one [RawPackage.DeepCopy()] result: (pull number, index in the broadcast loop). *)
 Definition copyid := (N * N)%type.
@@ -55,6 +58,7 @@ Definition step_events (s : state) (x : step) : list event :=
       | Some e => broadcast img (e_pull e) res 0 (e_recv e)
       | None => []                                  (* ranging over a missing key: no iteration *)
       end
+  | Cancel _ => []
   end.
 
 Definition do_step (s : state) (x : step) : state :=
@@ -74,6 +78,9 @@ Definition do_step (s : state) (x : step) : state :=
   | Done img res =>
       (* request_manager.go:134: delete(r.inFlight, image), also when there is no entry *)
       {| inflight := set (inflight s) img None; next := next s; log := log s ++ step_events s x |}
+  | Cancel _ =>
+      (* nothing in RequestManager reads the caller's context while it waits *)
+      {| inflight := inflight s; next := next s; log := log s ++ step_events s x |}
   end.
 
 Definition run_from (s : state) (steps : list step) : state := fold_left do_step steps s.
@@ -95,6 +102,7 @@ Fixpoint waiting (img : N) (rsteps : list step) : list N :=
   | [] => []
   | Req c i :: r => if i =? img then waiting img r ++ [c] else waiting img r
   | Done i _ :: r => if i =? img then [] else waiting img r
+  | Cancel _ :: r => waiting img r      (* a cancelled caller is still registered and still answered *)
   end.
 
 Definition is_nilb {A} (l : list A) : bool := match l with [] => true | _ => false end.
@@ -106,6 +114,7 @@ Fixpoint wf_rev (rsteps : list step) : bool :=
   match rsteps with
   | [] => true
   | Req _ _ :: r => wf_rev r
+  | Cancel _ :: r => wf_rev r
   | Done img _ :: r => negb (is_nilb (waiting img r)) && wf_rev r
   end.
 Definition wf (steps : list step) : bool := wf_rev (rev steps).
